@@ -397,7 +397,7 @@ for _p in ('C01', 'C02', 'C03', 'C04', 'C05', 'C06', 'C07', 'C08', 'C09', 'C10',
 
 # Process phase (harness/pv_premain.c): one small run per check whose property speaks about what create/encode/decode/store/crypt return;
 # the first history of the process is executed from a constructor, before main() and before any constructor of the library
-for _p in ('C01', 'C03', 'C04', 'C06', 'C07', 'C12', 'C13'):
+for _p in ('C01', 'C03', 'C04', 'C06', 'C07', 'C10', 'C12', 'C13'):
     _runs = PROPS[_p]['runs']
     for _fl in ('asan', 'plain-O3'):
         _runs.append({'name': 'premain-' + _fl, 'flavour': _fl, 'driver': _runs[0]['driver'], 'env': {'PV_PREMAIN': '1', 'PV_SCALE': '1'}, 'shards': 1, 'timeout': 900})
